@@ -35,112 +35,125 @@ OpsSig(as) == IF Len(as) = 1 THEN as[1].op
 F(ok, guard, sig) == IF ok THEN {} ELSE {<<guard, sig>>}
 
 \* ---------------------------------------------------------------- Case
-as == AtomsOf(Ev.atoms)
-n  == Len(as)
-want == HasVec(as)
+\* (all guards take the chain `as` and its semantic Has-vector `want` as LET-bound arguments: TLC caches LET values
+\*  but re-evaluates zero-arity state-level definitions at every use)
 KeyOf(kk) == IF kk = "wk" THEN cfg.wk ELSE IF kk = "custom2" THEN cfg.custom2 ELSE cfg.custom
 Narrow(got, exp) == \A j \in DOMAIN exp : got[j] => exp[j]
 Dir(got, exp) == IF Narrow(exp, got) THEN "wider" ELSE IF Narrow(got, exp) THEN "narrower" ELSE "different"
-SerClass == IF HasBound(as) /\ HasNotIn(as) THEN "bounded-notin" ELSE "other"
 
-G_New ==
-    LET bad == {j \in DOMAIN as : Ev.hasNew[j] # HasVec(<<as[j]>>)}
-    IN {<<"G_C12_New", as[j].op>> : j \in bad}
+G_New(e, as) ==
+    {<<"G_C12_New", as[j].op>> : j \in {x \in DOMAIN as : e.hasNew[x] # HasVec(<<as[x]>>)}}
 
-G_Intersection ==
-    F(Ev.has = want, "G_C12_Intersection", "Add:" \o OpsSig(as))
-    \cup F(Ev.hasX = want, "G_C12_Intersection", "Intersection:" \o OpsSig(as))
+G_Intersection(e, as, want, ops) ==
+    F(e.has = want, "G_C12_Intersection", "Add:" \o ops)
+    \cup F(e.hasX = want, "G_C12_Intersection", "Intersection:" \o ops)
 
-nonEmpty == \E j \in DOMAIN want : want[j]
-G_HasIntersection ==
-    LET bad == {j \in DOMAIN Ev.hi : Ev.hi[j].ab # nonEmpty \/ Ev.hi[j].ba # nonEmpty}
-    IN IF bad = {} THEN {} ELSE {<<"G_C12_HasIntersection", (IF nonEmpty THEN "false-negative:" ELSE "false-positive:") \o OpsSig(as)>>}
+G_HasIntersection(e, want, ops) ==
+    LET nonEmpty == \E j \in DOMAIN want : want[j]
+        bad == {j \in DOMAIN e.hi : e.hi[j].ab # nonEmpty \/ e.hi[j].ba # nonEmpty}
+    IN IF bad = {} THEN {}
+       ELSE {<<"G_C12_HasIntersection", (IF nonEmpty THEN "false-negative:" ELSE "false-positive:") \o ops>>}
 
-G_Laws ==
-    F(Ev.hasRev = want, "G_C12_Laws", "commutative")
-    \cup F(Ev.hasAssoc = want, "G_C12_Laws", "associative")
-    \cup F(Ev.hasIdem = want, "G_C12_Laws", "idempotent")
-    \cup F(/\ Ev.mv = MaxMV(as) /\ Ev.mvX = MaxMV(as) /\ Ev.mvRev = MaxMV(as)
-           /\ Ev.mvAssoc = MaxMV(as) /\ Ev.mvIdem = MaxMV(as), "G_C12_Laws", "minvalues-max")
-    \cup F(/\ Ev.keys = <<KeyOf(Ev.kk)>> /\ ~Ev.hasAlias /\ CanonKey(cfg.alias) = cfg.wk /\ CanonKey(cfg.wk) = cfg.wk
+G_Laws(e, want, mx) ==
+    F(e.hasRev = want, "G_C12_Laws", "commutative")
+    \cup F(e.hasAssoc = want, "G_C12_Laws", "associative")
+    \cup F(e.hasIdem = want, "G_C12_Laws", "idempotent")
+    \cup F(e.mv = mx /\ e.mvX = mx /\ e.mvRev = mx /\ e.mvAssoc = mx /\ e.mvIdem = mx, "G_C12_Laws", "minvalues-max")
+    \cup F(/\ e.keys = <<KeyOf(e.kk)>> /\ ~e.hasAlias /\ CanonKey(cfg.alias) = cfg.wk /\ CanonKey(cfg.wk) = cfg.wk
            /\ CanonKey(cfg.custom) = cfg.custom, "G_C12_Laws", "alias-normalised")
 
-\* compatibility for every split of the chain; allow = the key is in AllowUndefined (option given and key well known)
-CSem(c) == SemCompatKey(c.i > 0, SubSeq(as, 1, c.i), TRUE, SubSeq(as, c.i + 1, n), c.au /\ Ev.kk = "wk", U)
-CCls(c) == CompatClass(c.i > 0, SubSeq(as, 1, c.i), TRUE, SubSeq(as, c.i + 1, n), U)
+\* compatibility for every split of the chain; allow = the key is in AllowUndefined (option given and key well known).
+\* The signature is direction + witness class, whichever entry point (Compatible / IsCompatible / Intersects) disagreed.
 CDir(got) == IF got THEN "false-compatible:" ELSE "false-incompatible:"
-G_Compatible ==
+G_Compatible(e, as, UU) ==
     IF ~K8sDefined(as) THEN {}
-    ELSE LET C == {Ev.compat[j] : j \in DOMAIN Ev.compat} IN
-         {<<"G_C12_Compatible", CDir(c.ok) \o CCls(c)>> : c \in {x \in C : x.ok # CSem(x)}}
-         \cup {<<"G_C12_Compatible", "IsCompatible-disagrees-with-Compatible">> : c \in {x \in C : x.isc # x.ok}}
-         \cup {<<"G_C12_Compatible", "Intersects:" \o CDir(c.ints) \o CCls(c)>> :
-                 c \in {x \in C : x.ints # (IF x.i = 0 THEN TRUE ELSE CSem(x))}}
+    ELSE LET n == Len(as)
+             Sem(c) == SemCompatKey(c.i > 0, SubSeq(as, 1, c.i), TRUE, SubSeq(as, c.i + 1, n), c.au /\ e.kk = "wk", UU)
+             Cls(c) == CompatClass(c.i > 0, SubSeq(as, 1, c.i), TRUE, SubSeq(as, c.i + 1, n), UU)
+             \* per entry: <<sem, ok, ints>> evaluated once
+             R == {<<e.compat[j], Sem(e.compat[j])>> : j \in DOMAIN e.compat}
+             bad == {p \in R : p[1].ok # p[2] \/ p[1].ints # (IF p[1].i = 0 THEN TRUE ELSE p[2])}
+         IN {<<"G_C12_Compatible", CDir(~p[2]) \o Cls(p[1])>> : p \in bad}
+            \cup {<<"G_C12_Compatible", "IsCompatible-disagrees-with-Compatible">> : p \in {q \in R : q[1].isc # q[1].ok}}
 
 \* serialisation: the entries admit exactly what the chain admits; re-parsing gives the same requirement and the
 \* same reading of an absent label (as the scheduler itself reads it: Compatible against an empty left side).
 \* One signature per event: the first failing aspect in the order values > round trip > absent label.
-SerVec(ser) == HasVec(AtomsOf(ser))
-SerAspect(ser) == IF SerVec(ser) # want THEN Dir(SerVec(ser), want) ELSE "ok"
-G_Serialization ==
-    LET a1 == SerAspect(Ev.ser)
-        a2 == IF Ev.nc.ran /\ ~Ev.nc.panic THEN SerAspect(Ev.nc.ser) ELSE "ok"
-        a3 == IF Ev.nc.ran /\ ~Ev.nc.panicStatic THEN SerAspect(Ev.nc.serStatic) ELSE "ok"
+G_Serialization(e, as, want, mx) ==
+    LET cls == IF HasBound(as) /\ HasNotIn(as) THEN "bounded-notin" ELSE "other"
+        Aspect(ser) == LET sv == HasVec(AtomsOf(ser)) IN IF sv # want THEN Dir(sv, want) ELSE "ok"
+        a1 == Aspect(e.ser)
+        a2 == IF e.nc.ran /\ ~e.nc.panic THEN Aspect(e.nc.ser) ELSE "ok"
+        a3 == IF e.nc.ran /\ ~e.nc.panicStatic THEN Aspect(e.nc.serStatic) ELSE "ok"
         asp == IF a1 # "ok" THEN a1
                ELSE IF a2 # "ok" THEN "ToNodeClaim:" \o a2
                ELSE IF a3 # "ok" THEN "ToNodeClaim(static):" \o a3
-               ELSE IF ~(Ev.reHas = want /\ Ev.reHas = Ev.has) THEN "roundtrip"
-               ELSE IF Ev.absRe # Ev.absIn THEN "absent-label"
+               ELSE IF ~(e.reHas = want /\ e.reHas = e.has) THEN "roundtrip"
+               ELSE IF e.absRe # e.absIn THEN "absent-label"
                ELSE "ok"
-    IN F(asp = "ok", "G_C13_Serialization", SerClass \o ":" \o asp)
-       \cup F(Ev.reMv = MaxMV(as) /\ MaxMV(AtomsOf(Ev.ser)) = MaxMV(as), "G_C13_Serialization", "minvalues")
-       \cup F(Ev.serKeys = 0, "G_C13_Serialization", "foreign-key")
+    IN F(asp = "ok", "G_C13_Serialization", cls \o ":" \o asp)
+       \cup F(e.reMv = mx /\ MaxMV(AtomsOf(e.ser)) = mx, "G_C13_Serialization", "minvalues")
+       \cup F(e.serKeys = 0, "G_C13_Serialization", "foreign-key")
 
 \* the label value chosen for the key (Any) is admitted
-AnyClass == IF HasBound(as) /\ HasNotIn(as) THEN "excluded-value:bounded-notin"
-            ELSE IF HasNotIn(as) THEN "excluded-value:notin" ELSE "other"
-AnyOK(x) == x.s = "" \/ AdmitsAll(as, x)
-G_AnyAdmitted ==
-    F(Ev.valid => \A j \in DOMAIN Ev.any : AnyOK(Ev.any[j]), "G_C13_AnyAdmitted", AnyClass)
-    \cup F((Ev.nc.ran /\ Ev.nc.hasLabel) => AnyOK(Ev.nc.label), "G_C13_AnyAdmitted", AnyClass)
+G_AnyAdmitted(e, as) ==
+    LET cls == IF HasBound(as) /\ HasNotIn(as) THEN "excluded-value:bounded-notin"
+               ELSE IF HasNotIn(as) THEN "excluded-value:notin" ELSE "other"
+        OK(x) == x.s = "" \/ AdmitsAll(as, x)
+    IN F((e.valid => \A j \in DOMAIN e.any : OK(e.any[j])) /\ ((e.nc.ran /\ e.nc.hasLabel) => OK(e.nc.label)),
+         "G_C13_AnyAdmitted", cls)
 
-OnlyNegative == HasBound(as) /\ Den(as, U) # {} /\ \A v \in Den(as, U) : v.i /\ v.n < 0
-PanicClass == IF OnlyNegative THEN "only-negative-integers-admitted" ELSE "other"
-G_NoPanic ==
-    LET anyP == Ev.valid /\ Ev.anyPanic
-        ncP  == Ev.nc.ran /\ (Ev.nc.panic \/ Ev.nc.panicStatic)
-    IN F(~anyP /\ ~ncP, "Inv_C13_NoPanic", (IF anyP THEN "Any:" ELSE "ToNodeClaim-only:") \o PanicClass)
+G_NoPanic(e, as, want) ==
+    LET anyP == e.valid /\ e.anyPanic
+        ncP  == e.nc.ran /\ (e.nc.panic \/ e.nc.panicStatic)
+        onlyNeg == /\ HasBound(as) /\ \E j \in DOMAIN want : want[j]
+                   /\ \A j \in DOMAIN want : want[j] => (uni[j].i /\ uni[j].n < 0)
+    IN F(~anyP /\ ~ncP, "Inv_C13_NoPanic", (IF anyP THEN "Any:" ELSE "ToNodeClaim-only:")
+                                            \o (IF onlyNeg THEN "only-negative-integers-admitted" ELSE "other"))
 
 \* scenario sanity (not a verdict): the logged universe must be witness complete for this chain
-Thr == Thresholds(as)
-G_Scenario ==
-    IF Thr = {} THEN F(\E v \in U : ~v.i /\ v.s \notin ArgsOf(as), "X_Scenario", "universe-not-witness-complete")
+G_Scenario(as, UU) ==
+    LET Thr == Thresholds(as) IN
+    IF Thr = {} THEN F(\E v \in UU : ~v.i /\ v.s \notin ArgsOf(as), "X_Scenario", "universe-not-witness-complete")
     ELSE LET lo == CHOOSE x \in Thr : \A y \in Thr : x <= y
              hi == CHOOSE x \in Thr : \A y \in Thr : x >= y
-         IN F(WitnessComplete(U, ArgsOf(as), lo, hi), "X_Scenario", "universe-not-witness-complete")
+         IN F(WitnessComplete(UU, ArgsOf(as), lo, hi), "X_Scenario", "universe-not-witness-complete")
 
-CaseFails == G_New \cup G_Intersection \cup G_HasIntersection \cup G_Laws \cup G_Compatible
-             \cup G_Serialization \cup G_AnyAdmitted \cup G_NoPanic \cup G_Scenario
+CaseFails ==
+    LET e == Ev
+        as == AtomsOf(e.atoms)
+        want == HasVec(as)
+        mx == MaxMV(as)
+        ops == OpsSig(as)
+        UU == U
+    IN G_New(e, as) \cup G_Intersection(e, as, want, ops) \cup G_HasIntersection(e, want, ops) \cup G_Laws(e, want, mx)
+       \cup G_Compatible(e, as, UU) \cup G_Serialization(e, as, want, mx) \cup G_AnyAdmitted(e, as)
+       \cup G_NoPanic(e, as, want) \cup G_Scenario(as, UU)
 
 \* ---------------------------------------------------------------- Multi (several keys per side)
 SideAtoms(xs, k) == LET j == CHOOSE j \in DOMAIN xs : xs[j].kk = k IN AtomsOf(xs[j].atoms)
 KeysOf(xs) == {xs[j].kk : j \in DOMAIN xs}
-MSemKey(k, au) == LET dA == k \in KeysOf(Ev.A)  dB == k \in KeysOf(Ev.B)
-                  IN SemCompatKey(dA, IF dA THEN SideAtoms(Ev.A, k) ELSE <<>>, dB, IF dB THEN SideAtoms(Ev.B, k) ELSE <<>>,
-                                  au /\ k = "wk", U)
-MClsKey(k) == LET dA == k \in KeysOf(Ev.A)  dB == k \in KeysOf(Ev.B)
-              IN CompatClass(dA, IF dA THEN SideAtoms(Ev.A, k) ELSE <<>>, dB, IF dB THEN SideAtoms(Ev.B, k) ELSE <<>>, U)
-MKeys == KeysOf(Ev.A) \cup KeysOf(Ev.B)
-MSem(au) == \A k \in MKeys : MSemKey(k, au)
-MInts == \A k \in KeysOf(Ev.A) \cap KeysOf(Ev.B) : MSemKey(k, FALSE)
-MCls == LET best == CHOOSE k \in MKeys : \A k2 \in MKeys : ClassRank(MClsKey(k)) >= ClassRank(MClsKey(k2)) IN MClsKey(best)
-MDefined == \A k \in MKeys : /\ (k \in KeysOf(Ev.A) => K8sDefined(SideAtoms(Ev.A, k)))
-                             /\ (k \in KeysOf(Ev.B) => K8sDefined(SideAtoms(Ev.B, k)))
 MultiFails ==
-    IF ~MDefined THEN {}
-    ELSE F(Ev.ok = MSem(FALSE), "G_C12_Compatible", "multi:" \o CDir(Ev.ok) \o MCls)
-         \cup F(Ev.okAU = MSem(TRUE), "G_C12_Compatible", "multi:" \o CDir(Ev.okAU) \o MCls)
-         \cup F(Ev.ints = MInts, "G_C12_Compatible", "multi:Intersects:" \o CDir(Ev.ints) \o MCls)
+    LET e == Ev
+        UU == U
+        KA == KeysOf(e.A)
+        KB == KeysOf(e.B)
+        MK == KA \cup KB
+        SA == [k \in KA |-> SideAtoms(e.A, k)]
+        SB == [k \in KB |-> SideAtoms(e.B, k)]
+        At(S, K, k) == IF k \in K THEN S[k] ELSE <<>>
+        SemKey(k, au) == SemCompatKey(k \in KA, At(SA, KA, k), k \in KB, At(SB, KB, k), au /\ k = "wk", UU)
+        ClsKey == [k \in MK |-> CompatClass(k \in KA, At(SA, KA, k), k \in KB, At(SB, KB, k), UU)]
+        cls == IF MK = {} THEN "other"
+               ELSE ClsKey[CHOOSE k \in MK : \A k2 \in MK : ClassRank(ClsKey[k]) >= ClassRank(ClsKey[k2])]
+        defined == \A k \in MK : K8sDefined(At(SA, KA, k)) /\ K8sDefined(At(SB, KB, k))
+        sem0 == \A k \in MK : SemKey(k, FALSE)
+        sem1 == \A k \in MK : SemKey(k, TRUE)
+        semI == \A k \in KA \cap KB : SemKey(k, FALSE)
+    IN IF ~defined THEN {}
+       ELSE F(e.ok = sem0, "G_C12_Compatible", CDir(~sem0) \o cls)
+            \cup F(e.okAU = sem1, "G_C12_Compatible", CDir(~sem1) \o cls)
+            \cup F(e.ints = semI, "G_C12_Compatible", CDir(~semI) \o cls)
 
 \* ---------------------------------------------------------------- bookkeeping
 Key(p) == p[1] \o "|" \o p[2]
